@@ -323,7 +323,7 @@ func (m *machine) checkBody(r *simrt.Request, week string) {
 	for i := len(m.allMakers[week]) - 1; i >= 0 && maker == nil; i-- {
 		cand := m.allMakers[week][i]
 		cc := m.cfgByTask[cand]
-		if cc == nil || top["Config"] != cc.version {
+		if cc == nil || top["Config"] != cc.Version {
 			continue
 		}
 		for _, v := range m.xByTask[cand] {
@@ -347,8 +347,8 @@ func (m *machine) checkBody(r *simrt.Request, week string) {
 		m.fail("too-old-uploaded", "week %s ended more than 21 days before the run at %s that made it uploadable", week, weekCreatedAt[key].Format(time.RFC3339))
 		return
 	}
-	if cfg.ref.SampleRate > 0 && x > cfg.ref.SampleRate {
-		m.fail("sample-rate", "week %s was made uploadable with X=%v above the sample rate %v", week, x, cfg.ref.SampleRate)
+	if cfg.Ref.SampleRate > 0 && x > cfg.Ref.SampleRate {
+		m.fail("sample-rate", "week %s was made uploadable with X=%v above the sample rate %v", week, x, cfg.Ref.SampleRate)
 		return
 	}
 	if asof := weekCreatedAsof[key]; !asof.IsZero() && !asof.Before(weekEarliest[key]) {
@@ -356,7 +356,7 @@ func (m *machine) checkBody(r *simrt.Request, week string) {
 		return
 	}
 	// ---- C01: content
-	want := refreport.Filter(weekAgg[key], cfg.ref, x)
+	want := refreport.Filter(weekAgg[key], cfg.Ref, x)
 	progs, _ := top["Programs"].([]any)
 	if top["Programs"] != nil && progs == nil {
 		m.fail("body-shape", "Programs is not a list")
@@ -391,7 +391,7 @@ func (m *machine) checkBody(r *simrt.Request, week string) {
 			continue // a build with nothing to send may be omitted
 		}
 		if !ok {
-			m.fail("program-missing", "week %s (config %s, X=%v): approved program build %v is not in the request", week, cfg.version, x, wp.Build)
+			m.fail("program-missing", "week %s (config %s, X=%v): approved program build %v is not in the request", week, cfg.Version, x, wp.Build)
 			return
 		}
 		gc, ok1 := numMap(pm["Counters"])
@@ -401,22 +401,22 @@ func (m *machine) checkBody(r *simrt.Request, week string) {
 			return
 		}
 		if why, ok := sameMap(wp.Counters, gc); !ok {
-			m.fail("counters", "week %s (config %s, X=%v) program %s %s: counter %s", week, cfg.version, x, wp.Build.Program, wp.Build.Version, why)
+			m.fail("counters", "week %s (config %s, X=%v) program %s %s: counter %s", week, cfg.Version, x, wp.Build.Program, wp.Build.Version, why)
 			return
 		}
 		if why, ok := sameMap(wp.Stacks, gs); !ok {
-			m.fail("stacks", "week %s (config %s, X=%v) program %s %s: stack %s", week, cfg.version, x, wp.Build.Program, wp.Build.Version, strings.ReplaceAll(why, "\n", "\\n"))
+			m.fail("stacks", "week %s (config %s, X=%v) program %s %s: stack %s", week, cfg.Version, x, wp.Build.Program, wp.Build.Version, strings.ReplaceAll(why, "\n", "\\n"))
 			return
 		}
 		delete(got, wp.Build)
 	}
 	for b := range got {
-		js, _ := json.Marshal(cfg.real)
+		js, _ := json.Marshal(cfg.Real)
 		var ag []string
 		for _, p := range weekAgg[key].Programs {
 			ag = append(ag, fmt.Sprint(p.Build))
 		}
-		m.fail("program-not-approved", "week %s (config %s): program build %v is in the request but is not approved by %s (week files have builds %v, made at %s)", week, cfg.version, b, js, ag, weekCreatedAt[key].Format(time.RFC3339))
+		m.fail("program-not-approved", "week %s (config %s): program build %v is in the request but is not approved by %s (week files have builds %v, made at %s)", week, cfg.Version, b, js, ag, weekCreatedAt[key].Format(time.RFC3339))
 		return
 	}
 }
